@@ -315,6 +315,7 @@ def classify(kinds, hist, detail):
     (it has been advanced exactly once since it was created), or the step is that very next()."""
     tags = []
     n = {}
+    was = False
     for o in hist:
         if o[0] == "create":
             n[o[1]] = 0
@@ -322,7 +323,10 @@ def classify(kinds, hist, detail):
             n[o[1]] += 1
         elif o[0] in ("close", "drop"):
             n.pop(o[1], None)
-    if any(kinds[k] == "gen2" and c == 1 for k, c in n.items()):
+        # once a generator has been suspended inside `yield from`, the caller's collection is
+        # corrupted for the rest of the history (normally the search stops at that very step)
+        was = was or any(kinds[k] == "gen2" and c == 1 for k, c in n.items())
+    if was:
         tags.append("trigger:suspended-in-yield-from")
     return tags
 
